@@ -149,7 +149,7 @@ def step (s : St) (toks : List String) : St × String :=
           let ph := match t.phead with
             | some p => tagOf s p
             | none => "-"
-          s!"{showIds s t.heads} base={showIds s t.pbase} ph={ph} p={if t.persp.isSome then 1 else 0} s={if t.offset.isSome then 1 else 0}")
+          s!"{showIds s (sortNat (t.heads ++ t.pbase))} base={showIds s t.pbase} ph={ph} p={if t.persp.isSome then 1 else 0} s={if t.offset.isSome then 1 else 0}")
     | none => (s, "bad-op")
   | _ => (s, "bad-op")
 
